@@ -298,7 +298,7 @@ theorem step_winv {s s' : St} {op : Op} {o : Out} (hI : WInv s) (h : step s op =
     simp only [noOut, Option.map_eq_some_iff, Prod.mk.injEq] at h
     obtain ⟨s1, h1, rfl, _⟩ := h
     simp only [setFactors, Option.bind_eq_bind, Option.bind_eq_some_iff, Option.pure_def] at h1
-    obtain ⟨_, _, _, _, W, _, h1⟩ := h1
+    obtain ⟨_, _, _, _, _, _, W, _, h1⟩ := h1
     split at h1
     · simp only [Option.bind_eq_some_iff, Option.some.injEq] at h1
       obtain ⟨_, _, rfl⟩ := h1
